@@ -73,6 +73,22 @@ Section ServerKeys.
                                 pk_valid_until := public_key_not_valid |} m)
               (sk_old sk) r1.
 
+  (* ServerKeys.PublicKey: the current key while at <= valid_until_ts, else the old key while
+     at <= expired_ts (uint64 comparisons; note the old key is still handed out AT expired_ts,
+     whereas WasValidAt requires at < expired_ts) *)
+  Definition public_key (sk : server_keys) (kid : bytes) (atts : Z) : option bytes :=
+    match assoc_first kid (sk_verify sk) with
+    | Some key => if atts <=? sk_valid_until sk then Some key
+                  else match assoc_first kid (sk_old sk) with
+                       | Some (okey, e) => if atts <=? e then Some okey else None
+                       | None => None
+                       end
+    | None => match assoc_first kid (sk_old sk) with
+              | Some (okey, e) => if atts <=? e then Some okey else None
+              | None => None
+              end
+    end.
+
   (* ---------- DirectKeyFetcher ---------- *)
   Variable get_keys : bytes -> option server_keys.                    (* Client.GetServerKeys *)
   Variable lookup_keys : bytes -> kmap Z -> option (list server_keys). (* Client.LookupServerKeys *)
